@@ -19,6 +19,9 @@ def contracts():
     pf("rpos_fn", ["result == spec.rpos(args)"], int_limit=True, requires=["len(args) <= 2"])
     pf("len_fn", ["result == spec.length(args)"])
     pf("replace_fn", ["result == spec.replace(args)"])
+    # split/join are uninterpreted sequence functions shared by code and spec: what is proved is the position /
+    # limit arithmetic over the pieces
+    pf("explode_fn", ["result == spec.explode(args)"], seq_split=True)
     pf("lc_fn", ["result == spec.lc(args)"])
     pf("uc_fn", ["result == spec.uc(args)"])
     pf("lcfirst_fn", ["result == spec.lcfirst(args)"])
